@@ -232,7 +232,8 @@ func Harness_C09_points_compressed() {
 	decodePointsCompressed(d, L, out)
 	vr.Assert("decode error", d.err == nil)
 	for i := range vs {
-		want := Point{vrstub_packPiQi(vs[i].face, siTitoPiQi(vs[i].si, L), siTitoPiQi(vs[i].ti, L), L)}
+		// facePiQitoXYZ: symbolically the packing stub, natively the real cell-centre geometry
+		want := Point{facePiQitoXYZ(vs[i].face, siTitoPiQi(vs[i].si, L), siTitoPiQi(vs[i].ti, L), L)}
 		if vs[i].level == L {
 			vr.Assert("snapped vertex decodes to the centre of its own (face,pi,qi) cell", vrSamePoint(out[i], want))
 		} else {
